@@ -78,6 +78,11 @@ def SameStatic (a b : Opt) : Prop :=
 /-- No registered key is a path prefix of another one (then `Expand` never replaces anything). -/
 def PrefixFree (keys : List Key) : Prop := keys.Pairwise (fun a b => conflicts a b = false)
 
+/-- What a getter closure must satisfy between calls: its cached flag is the current one only if its cached
+    value is the current layered value. -/
+def CInv (st : St) (cl : Closure) : Prop :=
+  cl.flag ≤ st.gen ∧ (cl.flag = st.gen → cl.val = get st cl.key cl.fb)
+
 /-- Every value in a call is a Go value of its kind. -/
 def Op.WF : Op → Prop
   | .set _ v | .setd _ v => v.WF
